@@ -28,7 +28,13 @@ RULE = (
     "parsed template must be unchanged, and a second render of the same template object with the same data must give "
     "the same outcome; stream purity_filters: every registered filter (default and extra) x 8 input shapes x 8 argument "
     "lists, and tag templates that walk lists/dicts (reversed, limit/offset, tablerow, render/include for/with), sync and "
-    "async, data snapshot unchanged (exhaustive over the filter register). Non-trivial: the history contains a render that shares the probe's template, environment or a "
+    "async, data snapshot unchanged (exhaustive over the filter register); stream loaders: request sequences against "
+    "caching dict / choice / file-system loaders whose source depends on the namespace (namespace_key set or not, "
+    "namespaces absent, 0, '', False, None, 'x', 'y', 7, given as keyword argument or context global, sync and async, "
+    "capacities 1..4): every request must be served what a fresh loader serves, and which earlier request's template "
+    "object is served is compared with the Lean cache-key model; stream threads: 2-8 threads parse and render 2-4 "
+    "generated programs through one Environment concurrently (switch interval 1e-6, memo caches cleared first): every "
+    "output equals the single-threaded one. Non-trivial: the history contains a render that shares the probe's template, environment or a "
     "Python-equal argument (history), a hit on a non-identical key or an eviction (memo), a successful non-empty render "
     "(purity)."
 )
@@ -560,6 +566,302 @@ class PurityFilterStream(Stream):
         return []
 
 
+# ---- loaders: the template cache of a caching loader -----------------------------------------
+ABSENT = "$absent"
+LOADER_NS = [ABSENT, 0, "", False, None, "x", "y", 7]
+LOADER_NAMES = ["a", "b", "c"]
+
+
+def _ns_text(ns):
+    return None if ns == ABSENT and isinstance(ns, str) else f"{ns}"
+
+
+def _tpl_key(ns, name):
+    return name if (isinstance(ns, str) and ns == ABSENT) else f"{ns!r}:{name}"
+
+
+def _loader_templates():
+    t = {}
+    for n in LOADER_NAMES:
+        for ns in LOADER_NS:
+            t[_tpl_key(ns, n)] = f"[{n}@{'-' if (isinstance(ns, str) and ns == ABSENT) else repr(ns)}]" + "{{ g }}"
+    return t
+
+
+def make_ns_loader(kind, nskey, cap, thread_safe, root=None):
+    """A caching loader whose source depends on the namespace of the request (keyword argument `uid`, else the
+    context global `uid`), over the three built-in caching loaders."""
+    from liquid.builtin.loaders.caching_file_system_loader import CachingFileSystemLoader
+    from liquid.builtin.loaders.choice_loader import CachingChoiceLoader
+    from liquid.builtin.loaders.dict_loader import CachingDictLoader, DictLoader
+
+    missing = object()
+
+    def ns_of(context, kwargs):
+        ns = kwargs.get("uid", missing)
+        if ns is missing and context is not None:
+            ns = context.globals.get("uid", missing)
+        return ns
+
+    class NsDict(DictLoader):
+        def get_source(self, env, template_name, *, context=None, **kwargs):
+            ns = ns_of(context, kwargs)
+            key = template_name if ns is missing else f"{ns!r}:{template_name}"
+            return super().get_source(env, key if key in self.templates else template_name, context=context, **kwargs)
+
+        async def get_source_async(self, env, template_name, *, context=None, **kwargs):
+            return self.get_source(env, template_name, context=context, **kwargs)
+
+    class NsCachingDict(CachingDictLoader):
+        def get_source(self, env, template_name, *, context=None, **kwargs):
+            ns = ns_of(context, kwargs)
+            key = template_name if ns is missing else f"{ns!r}:{template_name}"
+            return DictLoader.get_source(self, env, key if key in self.templates else template_name, context=context, **kwargs)
+
+        async def get_source_async(self, env, template_name, *, context=None, **kwargs):
+            return self.get_source(env, template_name, context=context, **kwargs)
+
+    kw = dict(namespace_key=nskey, capacity=cap)  # the built-in caching loaders do not expose thread_safe
+    if kind == "dict":
+        return NsCachingDict(_loader_templates(), **kw)
+    if kind == "choice":
+        return CachingChoiceLoader([NsDict({k: v for k, v in _loader_templates().items() if ":" in k}), NsDict(_loader_templates())], **kw)
+
+    class NsFs(CachingFileSystemLoader):
+        def get_source(self, env, template_name, *, context=None, **kwargs):
+            ns = ns_of(context, kwargs)
+            sub = "plain" if ns is missing else "ns_" + "".join(ch if ch.isalnum() else "_" for ch in repr(ns))
+            return super().get_source(env, sub + "/" + template_name, context=context, **kwargs)
+
+        async def get_source_async(self, env, template_name, *, context=None, **kwargs):
+            ns = ns_of(context, kwargs)
+            sub = "plain" if ns is missing else "ns_" + "".join(ch if ch.isalnum() else "_" for ch in repr(ns))
+            return await super().get_source_async(env, sub + "/" + template_name, context=context, **kwargs)
+
+    return NsFs(root, **kw)
+
+
+_FS_ROOT = {"path": None, "pid": None}
+
+
+def _fs_root():
+    import tempfile
+
+    if _FS_ROOT["path"] is None or _FS_ROOT["pid"] != os.getpid():
+        d = tempfile.mkdtemp(prefix="c17_loaders_")
+        for n in LOADER_NAMES:
+            for ns in LOADER_NS:
+                absent = isinstance(ns, str) and ns == ABSENT
+                sub = "plain" if absent else "ns_" + "".join(ch if ch.isalnum() else "_" for ch in repr(ns))
+                os.makedirs(os.path.join(d, sub), exist_ok=True)
+                with open(os.path.join(d, sub, n), "w") as fh:
+                    fh.write(f"[{n}@{'-' if absent else repr(ns)}]" + "{{ g }}")
+        _FS_ROOT["path"], _FS_ROOT["pid"] = d, os.getpid()
+        atexit.register(lambda p=d, pid=os.getpid(): __import__("shutil").rmtree(p, ignore_errors=True) if os.getpid() == pid else None)
+    return _FS_ROOT["path"]
+
+
+class LoaderStream(Stream):
+    """A probe request to a caching loader after arbitrary earlier requests (other names, other namespaces — falsy ones
+    included —, namespace given as keyword argument or as a context global, sync and async, evictions) must be served
+    what a fresh loader serves; which earlier request's template object is served is compared with the Lean key model."""
+
+    name = "loaders"
+    parallel = True
+
+    def cases(self, ctx):
+        rng = ctx.rng_for("loaders")
+        out = []
+        for i in range(ctx.scale(300, 4000)):
+            r = rng.fork(str(i))
+            nskey = r.chance(80)
+            reqs = []
+            for _ in range(r.range(2, 9)):
+                ns = r.choice(LOADER_NS) if nskey else ABSENT  # a loader without namespace_key must not be asked by namespace
+                reqs.append({"name": r.choice(LOADER_NAMES), "ns": ns, "via": r.choice(["kwarg", "kwarg", "context"]),
+                             "async": r.chance(30), "g": r.choice([None, "G1", "G2"])})
+            kind = r.choice(["dict", "dict", "choice", "fs"])
+            if kind == "fs":
+                # a file-system template loaded asynchronously carries an async uptodate and is reloaded by the next
+                # synchronous request (C23's subject): keep one mode per case so that hits are comparable with the model
+                mode = r.chance(40)
+                for q in reqs:
+                    q["async"] = mode
+            out.append({"kind": kind, "nskey": nskey, "cap": r.range(1, 4), "thread_safe": False, "reqs": reqs})
+        return out
+
+    @staticmethod
+    def _request(env, q):
+        from liquid.context import RenderContext
+
+        from ..impl.render import run_async
+
+        kw = {}
+        absent = isinstance(q["ns"], str) and q["ns"] == ABSENT
+        if not absent:
+            if q["via"] == "kwarg":
+                kw["uid"] = q["ns"]
+            else:
+                kw["context"] = RenderContext(env.from_string(""), globals={"uid": q["ns"]})
+        gl = {"g": q["g"]} if q["g"] else None
+        if q["async"]:
+            return run_async(lambda: env.get_template_async(q["name"], globals=gl, **kw))
+        return env.get_template(q["name"], globals=gl, **kw)
+
+    def impl(self, case):
+        from liquid import Environment
+
+        root = _fs_root() if case["kind"] == "fs" else None
+        nk = "uid" if case["nskey"] else ""
+        env = Environment(loader=make_ns_loader(case["kind"], nk, case["cap"], case["thread_safe"], root))
+        created: dict = {}
+        keep = []
+        creators, outs, fresh = [], [], []
+        for i, q in enumerate(case["reqs"]):
+            o = outcome(lambda: self._request(env, q))
+            if "ok" in o:
+                t = o["ok"]
+                keep.append(t)
+                created.setdefault(id(t), i)
+                creators.append(created[id(t)])
+                outs.append(outcome(lambda: t.render()))
+            else:
+                creators.append(-1)
+                outs.append({"err": o["err"]})
+            fenv = Environment(loader=make_ns_loader(case["kind"], nk, case["cap"], case["thread_safe"], root))
+            f = outcome(lambda: self._request(fenv, q))
+            fresh.append(outcome(lambda: f["ok"].render()) if "ok" in f else {"err": f["err"]})
+        return {"creators": creators, "outs": outs, "fresh": fresh}
+
+    def line(self, case):
+        reqs = []
+        for q in case["reqs"]:
+            absent = isinstance(q["ns"], str) and q["ns"] == ABSENT
+            reqs.append([None if absent else f"{q['ns']}", q["name"]])
+        return ["c17loader", case["cap"], bool(case["nskey"]), reqs]
+
+    def compare_view(self, case, obs):
+        return obs["creators"]
+
+    def oracle(self, case, obs):
+        for i, (a, b) in enumerate(zip(obs["outs"], obs["fresh"])):
+            if a != b:
+                q = case["reqs"][i]
+                absent = isinstance(q["ns"], str) and q["ns"] == ABSENT
+                cls = "absent" if absent else ("falsy" if not q["ns"] else "truthy")
+                return (f"loaders|{case['kind']}|{q['via']}|ns={cls}|differs-from-fresh-loader",
+                        f"request {i} {q} is served {a} after {i} earlier requests; a fresh loader serves {b}")
+        return None
+
+    def nontrivial(self, case, obs):
+        c = obs["creators"]
+        return any(c[i] != i for i in range(len(c))) or len(set(c)) > case["cap"]
+
+    def tags(self, case, obs):
+        c = obs["creators"]
+        t = [case["kind"], "nskey" if case["nskey"] else "no-nskey", "hits" if any(c[i] != i for i in range(len(c))) else "no-hits"]
+        if any((not (isinstance(q["ns"], str) and q["ns"] == ABSENT)) and not q["ns"] for q in case["reqs"]):
+            t.append("falsy-ns")
+        return t
+
+    def shrink_candidates(self, case):
+        r = case["reqs"]
+        for i in range(len(r)):
+            d = dict(case)
+            d["reqs"] = r[:i] + r[i + 1 :]
+            yield d
+
+
+# ---- threads: concurrent renders through one Environment ------------------------------------
+class ThreadStream(Stream):
+    """Several threads parse and render through one Environment at the same time (shared get_lexer / get_parser memos,
+    shared tag and filter registers, one loader): every output must equal the single-threaded one."""
+
+    name = "threads"
+    has_model = False
+
+    def cases(self, ctx):
+        rng = ctx.rng_for("threads")
+        out = []
+        for i in range(ctx.scale(24, 200)):
+            r = rng.fork(str(i))
+            g = gen_program(r, n_partials=r.choice([0, 1, 2]))
+            jobs = []
+            for j in range(r.range(2, 5)):
+                h = gen_program(r.fork(f"j{j}"), extra=g["extra"], n_partials=0)
+                jobs.append({"source": h["source"] if r.chance(60) else g["source"], "data": h["data"] if r.chance(70) else g["data"]})
+            out.append({"prog": {"flags": g["flags"], "extra": g["extra"], "autoescape": g["autoescape"], "partials": g["partials"]},
+                        "jobs": jobs, "threads": r.choice([2, 4, 8]), "rounds": r.range(2, 5)})
+        return out
+
+    def impl(self, case):
+        import threading
+
+        from liquid.lex import get_lexer
+        from liquid.parser import get_parser
+
+        prog = dict(case["prog"], source="", data={})
+        jobs = case["jobs"]
+
+        def one(env, job):
+            return outcome(lambda: env.from_string(job["source"]).render(**copy.deepcopy(job["data"])))
+
+        ref_env = make_env(prog)
+        expected = [one(ref_env, j) for j in jobs]
+        get_lexer.cache_clear()
+        get_parser.cache_clear()
+        env = make_env(prog)
+        nt = case["threads"]
+        results: list = [[] for _ in range(nt)]
+        barrier = threading.Barrier(nt)
+
+        def work(t):
+            barrier.wait()
+            for rnd in range(case["rounds"]):
+                for k in range(len(jobs)):
+                    j = (k + t + rnd) % len(jobs)
+                    results[t].append((j, one(env, jobs[j])))
+
+        old = sys.getswitchinterval()
+        sys.setswitchinterval(1e-6)
+        try:
+            ths = [threading.Thread(target=work, args=(t,)) for t in range(nt)]
+            for th in ths:
+                th.start()
+            for th in ths:
+                th.join(120)
+        finally:
+            sys.setswitchinterval(old)
+        bad = []
+        for t in range(nt):
+            for j, o in results[t]:
+                if not _same(o, expected[j]):
+                    bad.append({"thread": t, "job": j, "got": o, "want": expected[j]})
+        done = sum(len(r) for r in results)
+        return {"bad": bad[:3], "n_bad": len(bad), "done": done, "expected_runs": nt * case["rounds"] * len(jobs),
+                "ok_jobs": sum(1 for e in expected if "ok" in e)}
+
+    def oracle(self, case, obs):
+        if obs["n_bad"]:
+            return ("threads|differs-from-single-threaded", f"{obs['n_bad']} of {obs['done']} concurrent renders differ, e.g. {obs['bad'][0]}")
+        if obs["done"] != obs["expected_runs"]:
+            return ("threads|render-did-not-finish", f"{obs['done']} of {obs['expected_runs']} renders finished")
+        return None
+
+    def nontrivial(self, case, obs):
+        return obs["ok_jobs"] > 0 and any("now" not in j["source"] for j in case["jobs"])
+
+    def tags(self, case, obs):
+        return [f"threads{case['threads']}"]
+
+    def shrink_candidates(self, case):
+        for i in range(len(case["jobs"])):
+            if len(case["jobs"]) > 1:
+                d = dict(case)
+                d["jobs"] = case["jobs"][:i] + case["jobs"][i + 1 :]
+                yield d
+
+
 def _same(a, b):
     if "ok" in a and "ok" in b:
         return a["ok"] == b["ok"]
@@ -567,4 +869,4 @@ def _same(a, b):
 
 
 def streams(ctx):
-    return [MemoStream(), HistoryStream(), PurityStream(), PurityFilterStream()]
+    return [MemoStream(), HistoryStream(), PurityStream(), PurityFilterStream(), LoaderStream(), ThreadStream()]
